@@ -40,11 +40,14 @@ type Exec struct {
 	oldCtr   int
 	invoked  map[string]bool // names of function-typed params tracked
 	specMode bool            // evaluating a contract expression: no obligations, no assumptions
+	extraRequires []*SExpr
+	noReturnOK    bool
 }
 
 type retPoint struct {
-	st   *State
-	vals []Value
+	st    *State
+	vals  []Value
+	nhyps int
 }
 
 type loopInfo struct {
@@ -178,6 +181,10 @@ func (e *Exec) Verify() (obls []*Obligation, err error) {
 		for _, cl := range e.fc.Requires {
 			env.polarity = polAssume
 			e.ctx.assume(env.evalBool(cl.Expr))
+		}
+		for _, x := range e.extraRequires {
+			env.polarity = polAssume
+			e.ctx.assume(env.evalBool(x))
 		}
 	}
 	out := e.run(st, nil)
@@ -664,7 +671,7 @@ func (e *Exec) doReturn(r *ssa.Return, st *State) {
 		e.rets = append(e.rets, retPoint{st: st, vals: vals})
 		return
 	}
-	e.rets = append(e.rets, retPoint{st: st, vals: vals})
+	e.rets = append(e.rets, retPoint{st: st, vals: vals, nhyps: len(e.ctx.hyps)})
 	if e.fc == nil {
 		return
 	}
